@@ -469,6 +469,45 @@ def check_spec_not_consumed(idx: Index, rep: Report) -> None:
             r.ok(inst, f"{h.loc} {m.group(2)} builds a new dictionary on every path")
 
 
+def check_quoted_words(idx: Index, rep: Report) -> None:
+    """A string value is written quoted, and a quoted word is a string whatever it spells: the reader may turn `true` /
+    `false` into booleans only for bare identifiers."""
+    r = rep.rule("C18.R7", "the value reader answers True / False only on an IDENT token: a STRING_LIT token (how string values are written) is always read back as a string", floor=1)
+    reader = idx.func(AS, "_parse_parameter_value_element")
+    from ..astutil import parent_map
+
+    pm = parent_map(reader.node)
+    n = 0
+    for rt in [x for x in ast.walk(reader.node) if isinstance(x, ast.Return) and isinstance(x.value, ast.Constant) and isinstance(x.value.value, bool)]:
+        n += 1
+        case = rt
+        while id(case) in pm and not isinstance(case, ast.match_case):
+            case = pm[id(case)]
+        kinds: set[str] = set()
+        if isinstance(case, ast.match_case):
+            for p_ in ast.walk(case.pattern):
+                if isinstance(p_, ast.MatchValue) and "TokenKind." in unparse(p_.value):
+                    kinds.add(unparse(p_.value).split(".")[-1])
+        facts = [(unparse(t_), p_) for t_, p_ in guard_facts(reader.node, rt)]
+        for t_, p_ in facts:
+            m_ = re.fullmatch(r"[\w.]+ (is|==|is not|!=) \w*TokenKind\.(\w+)", t_)
+            if m_:
+                positive = (m_.group(1) in ("is", "==")) == p_
+                if positive:
+                    kinds = {m_.group(2)}
+                else:
+                    kinds.discard(m_.group(2))
+        inst = f"{reader.fq}:return {rt.value.value}"
+        if not kinds:
+            raise AnalysisError(f"{reader.fq}: the token kind under which `return {rt.value.value}` is reached was not determined")
+        if "STRING_LIT" in kinds:
+            r.fail(inst, Finding("C18.R7", reader.fq, "quoted-word-read-as-bool", f"`return {rt.value.value}` is reached for a STRING_LIT token (kinds {sorted(kinds)}): the string value \"{str(rt.value.value).lower()}\", which the printer writes quoted, is read back as a boolean and the spec no longer builds the same pass", f"{AS}:{rt.lineno}"))
+        else:
+            r.ok(inst, f"{AS}:{rt.lineno} booleans only from {sorted(kinds)}")
+    if n == 0:
+        r.ok("table-form", "no literal boolean return in the reader (table form, checked by C18.R1)")
+
+
 def check(idx: Index, rep: Report, tier: str) -> str:
     rep.run(check_writer_forms, idx, rep)
     rep.run(check_escapes, idx, rep)
@@ -476,6 +515,7 @@ def check(idx: Index, rep: Report, tier: str) -> str:
     rep.run(check_registry, idx, rep)
     rep.run(check_pipeline_instances, idx, rep)
     rep.run(check_spec_not_consumed, idx, rep)
+    rep.run(check_quoted_words, idx, rep)
     return (
         "Regular-language analysis of each writer form of ArgSpec._spec_parameter_type_str against the first-match token "
         "rules of arg_spec.py and the value parser's type mapping; agreement of the lexer's escape alphabet with the decoder; "
